@@ -200,9 +200,15 @@ where
     let mut delay = MockDelay(&clock);
     match b.init(&mut delay) {
         Ok(d) => {
-            kani::assert(clock.ops.get() <= k, "C12: a failing operation was swallowed");
-            kani::assert(!(with_pin && d.di.n_swreset > 0), "C17: software reset sent although a reset pin is configured");
-            kani::assert(with_pin || d.di.n_swreset == 1, "C17: without a reset pin exactly one software reset");
+            // (a failed kani::assert is also assumed afterwards: the nondeterministic choice keeps the checks independent)
+            let which: u8 = kani::any();
+            if which == 0 {
+                kani::assert(clock.ops.get() <= k, "C12: a failing operation was swallowed");
+            } else if which == 1 {
+                kani::assert(!(with_pin && d.di.n_swreset > 0), "C17: software reset sent although a reset pin is configured");
+            } else {
+                kani::assert(with_pin || d.di.n_swreset == 1, "C17: without a reset pin exactly one software reset");
+            }
         }
         Err(InitError::ResetPin(_)) => {
             kani::assert(with_pin && k < 2, "C12: ResetPin error not caused by the reset pin");
